@@ -210,6 +210,8 @@ pub struct Registry {
     /// (frame id, op name) acknowledged to the caller, in acknowledgement order, recorded the
     /// moment the appending call returns Ok
     pub acks: Vec<(String, String)>,
+    /// thread ids in the order the harness learned of them (creation acknowledged)
+    pub threads: Vec<String>,
 }
 
 pub struct World {
@@ -238,14 +240,20 @@ impl World {
         self.store.lock().unwrap().clone().expect("store open")
     }
 
+    /// Threads in a schedule-determined order that does not depend on random ids: first the ones
+    /// whose creation was acknowledged to the harness (in that order), then any other thread the
+    /// store lists (created by an operation still in flight), by (created_at, id).
     pub fn threads_sorted(&self, store: &ContinuityStore) -> Vec<String> {
-        let mut v: Vec<(u64, String)> = store
+        let mut out: Vec<String> = self.reg.lock().unwrap().threads.clone();
+        let mut rest: Vec<(u64, String)> = store
             .list()
             .into_iter()
+            .filter(|m| !out.contains(&m.continuity_id))
             .map(|m| (m.created_at_ms, m.continuity_id))
             .collect();
-        v.sort();
-        v.into_iter().map(|(_, id)| id).collect()
+        rest.sort();
+        out.extend(rest.into_iter().map(|(_, id)| id));
+        out
     }
 
     fn pick_thread(&self, store: &ContinuityStore, idx: u32) -> Option<String> {
@@ -288,11 +296,28 @@ impl World {
     }
 
     pub fn record(&self, r: OpResult) {
+        if let Some(t) = &r.new_thread {
+            let mut reg = self.reg.lock().unwrap();
+            if !reg.threads.contains(t) {
+                reg.threads.push(t.clone());
+            }
+        }
         self.reg.lock().unwrap().results.push(r);
     }
 
     /// Execute one operation as `actor`; never panics on API errors.
     pub fn exec(&self, actor: usize, index: usize, op: &Op) -> OpResult {
+        let r = self.exec_inner(actor, index, op);
+        if let Some(t) = &r.new_thread {
+            let mut reg = self.reg.lock().unwrap();
+            if !reg.threads.contains(t) {
+                reg.threads.push(t.clone());
+            }
+        }
+        r
+    }
+
+    fn exec_inner(&self, actor: usize, index: usize, op: &Op) -> OpResult {
         // deterministic iteration budget for the hooked tail-window loops, per operation
         crate::sched::ticks_reset(400);
         let st = self.st();
